@@ -20,6 +20,7 @@ import (
 // answers have symbolic scores; worker failures, the replica choice, the
 // schedule and every select choice are path decisions.
 func VerifC09() {
+	verifrt.RaceDetect(verifrt.Bound("race", 0) == 1)
 	P := verifrt.IntIn("P", verifrt.Bound("minp", 1), verifrt.Bound("maxp", 2))
 	nNodes := verifrt.Bound("nodes", 2)
 	maxItems := verifrt.Bound("items", 2)
@@ -94,7 +95,10 @@ func VerifC09() {
 
 	// which workers were actually contacted, and did any of them fail?
 	for _, c := range clients {
-		for _, req := range c.requests {
+		verifrt.HarnessLock()
+		reqs := append([]*pb.SearchPartitionsRequest(nil), c.requests...)
+		verifrt.HarnessUnlock()
+		for _, req := range reqs {
 			for _, pid := range req.GetPartitionIds() {
 				requested[string(pid)]++
 			}
@@ -142,6 +146,7 @@ func VerifC09() {
 // its true score, no id twice (a replicated partition is consulted on exactly
 // one replica), or an error when a partition id is unknown to the node asked.
 func VerifC09Cluster() {
+	verifrt.RaceDetect(verifrt.Bound("race", 0) == 1)
 	P := verifrt.IntIn("P", 1, verifrt.Bound("maxp", 2))
 	maxItems := verifrt.Bound("items", 2)
 	grid := verifrt.Bound("grid", 15)
